@@ -10,6 +10,21 @@ sys.path.insert(0, os.path.join(os.path.dirname(os.path.abspath(__file__)), ".."
 from vlib import *
 import backendrun as B
 
+# the inputs of the findings this machine produced (F97, F98 repaired; F99 known), and neighbours
+HAND = [
+    "from t | select {a} | sort a | take 3 | group a (take 1)",
+    "from t | select {a} | sort a | take 3 | group a (take 1) | sort a",
+    "from t | select {a, b} | sort b | take 2..4 | group {a, b} (take 1)",
+    "from t | select {a, b} | group a (take 1) | group {a, b} (take 1)",
+    "from t | select {a, b} | group a (sort b | take 1) | select {b} | group {b} (take 1)",
+    "from t | select {a, b} | group a (take 1) | filter b > 1 | select {a}",
+    "from t | select {a, b} | group a (take 1) | sort b | select {a}",
+    "from t | select {a, b} | group a (take 1) | derive {c = b + 1} | take 5 | filter c > 2 | select {a}",
+    "from t | select {a, b} | group {a, b} (take 1) | filter b > 1 | select {a}",
+    "from t | select {k, a, b} | group a (take 1) | select {a}",
+    "from t | select {a, b} | take 3 | group {a, b} (take 1)",
+]
+
 def _kinds(rec):
     e = rec["event"]
     if e["ev"] != "Split" or not rec.get("pair") or rec["pair"][0] == 0:
@@ -56,6 +71,7 @@ def phase(rep, pid, tier, sources=None):
             fixed = [s for s in sources if not s["id"].startswith("g")]
             gen_ = [s for s in sources if s["id"].startswith("g")]
             sources = rnd.sample(fixed, min(len(fixed), 700)) + rnd.sample(gen_, min(len(gen_), 900))
+    sources = sources + [{"id": f"hand{i}", "src": x} for i, x in enumerate(HAND)]
     r2 = B.run(d, sources, dialects="all", tag="src")
     nrel = 0
     for r in (r1, r2):
